@@ -199,6 +199,10 @@ def check(ctx):
     rules_loop_state(ctx, "R3")
     # a merged timeline hands start_with(v) to every component and evaluates every component at every time, including
     # before that component's own delay (C12/R1, R2)
+    # "during a reverse pass ... identical to the same timeline without start_with": the reversing flag is the fold test
+    # itself (C03/R2)
+    from rules import c03
+    c03.rule_mirror(ctx, TT.build(ctx), "R3")
     from rules import c12
     c12.check_loop_method(ctx, ctx.facts, "R4", "update", mutable=False)
     c12.check_loop_method(ctx, ctx.facts, "R4", "start_with", mutable=True)
